@@ -520,7 +520,15 @@ func c08sRun(in *c08sInput) *c08sObs {
 				return false, true
 			}
 			if !th.fh.VerifSubscribersLockFree() {
-				if in.Commit {
+				// at most one requester waits inside Lock(): with several, which of them the runtime serves
+				// first is not determined by the schedule (replays would differ)
+				alone := true
+				for _, q := range rts {
+					if q.pos == 2 && q.committed {
+						alone = false
+					}
+				}
+				if in.Commit && alone {
 					if !commit(t) {
 						return false, false
 					}
@@ -849,13 +857,16 @@ func c08sGen(r *Rng, i int, tier string) any {
 	in.Live = rest[:nl]
 	nreq := 2 + r.Intn(5)
 	if slow {
-		nreq = 2 + r.Intn(2)
+		nreq = 4 + r.Intn(3) // subscriptions registered after the slow one: its removal must not disturb the fan-out to them
 	}
 	in.Tracker = slow || r.Chance(65)
 	in.Commit = r.Chance(50)
 	kinds := []string{"num", "num", "forks", "cursor", "through"}
 	for k := 0; k < nreq; k++ {
 		in.Reqs = append(in.Reqs, c08sReq{Kind: kinds[r.Intn(len(kinds))], Sel: r.Intn(1 << 16), Sel2: r.Intn(1 << 16)})
+		if slow && r.Chance(70) {
+			in.Reqs[k].Kind, in.Reqs[k].Sel = "num", r.Intn(3) // served for sure
+		}
 	}
 	if in.Tracker {
 		in.Reqs[0] = c08sReq{Kind: "num"}
